@@ -618,7 +618,9 @@ func (p *parser) parseEscape(opts CharsetOptions, standalone bool) charset {
 					p.error("invalid escape sequence", start, p.scanOffset)
 					return nil
 				}
-				r = r<<4 + d
+				if r = r<<4 + d; r > unicode.MaxRune {
+					r = unicode.MaxRune + 1 // saturate instead of wrapping around (reported below)
+				}
 				p.next()
 				if p.ch == '}' {
 					break
@@ -632,7 +634,9 @@ func (p *parser) parseEscape(opts CharsetOptions, standalone bool) charset {
 					p.error("invalid escape sequence", start, p.scanOffset)
 					return nil
 				}
-				r = r<<4 + d
+				if r = r<<4 + d; r > unicode.MaxRune {
+					r = unicode.MaxRune + 1 // saturate instead of wrapping around (reported below)
+				}
 				p.next()
 			}
 		}
